@@ -112,6 +112,13 @@ normalize_token.register(
 )
 
 
+def _sort_key(obj: object) -> tuple[str, str]:
+    # Keys and set elements can be an unsortable mix of types, so they are
+    # sorted by their str. Objects of different types can share it (1 and "1");
+    # the name of the type keeps their order independent of the insertion order.
+    return str(obj), type(obj).__name__
+
+
 @normalize_token.register((types.MappingProxyType, dict))
 def normalize_dict(d):
     with tokenize_lock:
@@ -120,7 +127,7 @@ def normalize_dict(d):
         _SEEN[id(d)] = len(_SEEN), d
         try:
             return "dict", _normalize_seq_func(
-                sorted(d.items(), key=lambda kv: str(kv[0]))
+                sorted(d.items(), key=lambda kv: _sort_key(kv[0]))
             )
         finally:
             _SEEN.pop(id(d), None)
@@ -136,7 +143,7 @@ def normalize_set(s):
     # Note: in some Python version / OS combinations, set order changes every
     # time you recreate the set (even within the same interpreter).
     # In most other cases, set ordering is consistent within the same interpreter.
-    return "set", _normalize_seq_func(sorted(s, key=str))
+    return "set", _normalize_seq_func(sorted(s, key=_sort_key))
 
 
 def _normalize_seq_func(seq: Iterable[object]) -> tuple[object, ...]:
